@@ -164,7 +164,21 @@ func run(c hx.Config) error {
 		emit(s, nv, locs, fmt.Sprintf("%sfaults=%d@level%d", tag, len(locs), descend))
 	}
 	multi := func(s *cx.Sch, v any, descend, k, depth int) { multiHow(s, v, descend, k, depth, "") }
+	// aim=<kind,…|all> (from vlib: the Go functions whose structure fingerprint changed reach these kinds): 4x the schemas
+	aim := map[string]bool{}
+	for _, a := range c.Args {
+		if strings.HasPrefix(a, "aim=") {
+			for _, k := range strings.Split(a[4:], ",") {
+				aim[k] = true
+			}
+		}
+	}
 	for _, kind := range kinds {
+		perKind := perKind
+		if aim[kind] || aim["all"] {
+			perKind *= 4
+			o.Count("aimed:" + kind)
+		}
 		for i := range perKind {
 			depth := 1 + i%maxDepth
 			s := cx.GenKind(r, depth, kind)
